@@ -39,8 +39,8 @@ func init() { register("C11", "other", checkC11) }
 // Decided on top of an inner gadget kept as a node: Les on Lts, IntNegative and
 // Abs on the sign mask - Lts (checkLts: eight cases of top bits and unsigned
 // order) and the sign mask (C11.signmask: all 255 widths) are decided
-// themselves - and SignedMul on SignExtend, which is not. NOT decided:
-// SignedDiv, SignedMod, SignExtend, RshA, MaskBits (their meaning depends on
+// themselves - and SignedMul on SignExtend (C11.signext: per bit in three
+// position classes). NOT decided: SignedDiv, SignedMod, RshA, MaskBits (their meaning depends on
 // sign bits and masks that vary with the width), and the meaning of the IR
 // operators themselves (C10).
 func checkC11(c *Ctx) {
@@ -236,6 +236,18 @@ func checkC11(c *Ctx) {
 		}
 		x.opaque = saved
 	}
+	// ---- SignExtend: per bit in three position classes (below / at / above the
+	// sign position), the masks 1<<s and (1<<s)-1 recognised as polynomials
+	c.Rule("C11.signext", "SignExtend(e, s, w) selects on the bit of e at position s alone and yields e below s and that bit from s upwards (per-bit argument in three position classes; 1<<s and (1<<s)-1 recognised by their polynomial form; s < 8w as documented)")
+	{
+		saved := x.opaqueSX
+		x.opaqueSX = map[*ssa.Function]bool{}
+		if t, f := term("SignExtend"); t != nil {
+			n++
+			checkSignExtend(c, t, f)
+		}
+		x.opaqueSX = saved
+	}
 	// ---- SignedMul, relative to SignExtend and Mul: the product, at twice the
 	// width, of the operands each sign-extended from its own top bit to that width
 	c.Rule("C11.smul", "SignedMul builds Mul(sext(a, bit 8*width(a)-1), sext(b, bit 8*width(b)-1)) with both extensions and the product at width 2w (relative to SignExtend, kept as a node, and to Mul)")
@@ -335,7 +347,7 @@ func checkC11(c *Ctx) {
 	} else {
 		c.Undecide("C11.signmask: %s.signBitMask not found", tpkg)
 	}
-	c.RequireCount("C11 gadgets decided", n, 20)
+	c.RequireCount("C11 gadgets decided", n, 21)
 }
 
 func ruleOfGadget(name string) string {
@@ -346,6 +358,8 @@ func ruleOfGadget(name string) string {
 		return "C11.ring"
 	case "SignedMul":
 		return "C11.smul"
+	case "SignExtend":
+		return "C11.signext"
 	}
 	return "C11.cases"
 }
@@ -1113,4 +1127,131 @@ func checkLts(c *Ctx, t *gt, f *ssa.Function) {
 		}
 	}
 	c.Oblige("C11.cases", "pkg/expr/exprtools.Lts", c.Prog.FuncPos(f), bad == "", bad)
+}
+
+// ---------------------------------------------------------------------------
+// sign extension at a given bit
+
+// sxBit: one bit of a term of SignExtend(e, s, w) in one of three position
+// classes - below the sign position s, at it, above it (s < 8w assumed, as the
+// gadget documents). Nand nodes act per bit; any other node must be, as a
+// polynomial with the atom L = Lsh(1, s), either L (a one at position s) or
+// L - 1 (ones below s).
+func (t *gt) sxBit(e bool, cls int, U string) (bool, string) {
+	switch t.kind {
+	case "var":
+		if t.name == "p0" {
+			return e, ""
+		}
+		return false, "the sign position takes part as a value"
+	case "const":
+		if t.k == 0 {
+			return false, ""
+		}
+		return false, fmt.Sprintf("the constant %d is not the same in every bit position", t.k)
+	case "bin":
+		if t.w != U {
+			return false, "a node of width " + t.w + " in a gadget of width " + U
+		}
+		if t.name == "Nand" {
+			a, e1 := t.a[0].sxBit(e, cls, U)
+			b, e2 := t.a[1].sxBit(e, cls, U)
+			return !(a && b), firstErr(e1, e2)
+		}
+		p, err := t.sxPoly(U)
+		if err != "" {
+			return false, err
+		}
+		one := func(m string, k int64) bool { return p[m] != nil && p[m].Cmp(big.NewInt(k)) == 0 }
+		switch {
+		case len(p) == 1 && one("L", 1):
+			return cls == 0, "" // a one at the sign position
+		case len(p) == 2 && one("L", 1) && one("", -1):
+			return cls < 0, "" // 2^s - 1: ones below the sign position
+		}
+		return false, "a computed value that is neither 1<<s nor (1<<s)-1 takes part in the extension"
+	}
+	return false, "a selection inside the extension"
+}
+
+// sxPoly: poly with the atom L for Lsh(1, p1).
+func (t *gt) sxPoly(U string) (gpoly, string) {
+	if t.kind == "bin" && t.name == "Lsh" && t.w == U && t.a[0].kind == "const" && t.a[0].k == 1 && t.a[1].kind == "var" && t.a[1].name == "p1" {
+		return gpoly{"L": big.NewInt(1)}, ""
+	}
+	if t.kind == "bin" && t.w == U && (t.name == "Add" || t.name == "Mul" || t.name == "Nand") {
+		a, e1 := t.a[0].sxPoly(U)
+		b, e2 := t.a[1].sxPoly(U)
+		if e := firstErr(e1, e2); e != "" {
+			return nil, e
+		}
+		switch t.name {
+		case "Add":
+			return a.add(b), ""
+		case "Mul":
+			return a.mul(b), ""
+		default:
+			switch {
+			case b.equal(constPoly(-1)), a.equal(b):
+				return a.scale(-1).add(constPoly(-1)), ""
+			case a.equal(constPoly(-1)):
+				return b.scale(-1).add(constPoly(-1)), ""
+			}
+			return nil, "a Nand that is not a complement of the whole word inside a computed mask"
+		}
+	}
+	return t.poly(U, nil)
+}
+
+// checkSignExtend: SignExtend(e, s, w) = cond(0 < c ? t : f) where c is non-zero
+// exactly when bit s of e is set, t is e with ones from s upwards, f is e with
+// zeros from s upwards.
+func checkSignExtend(c *Ctx, t *gt, f *ssa.Function) {
+	bad := ""
+	classes := []int{-1, 0, 1}
+	name := map[int]string{-1: "below the sign position", 0: "at the sign position", 1: "above the sign position"}
+	switch {
+	case t.kind != "less" || t.w != "w" || !(t.a[0].kind == "const" && t.a[0].k == 0):
+		bad = "the gadget is not a selection on 0 < (e & 1<<s): " + t.String()
+	default:
+		for _, cls := range classes {
+			for _, e := range []bool{false, true} {
+				if bad != "" {
+					break
+				}
+				// the condition: the bit of e at the sign position, nothing elsewhere
+				cb, err := t.a[1].sxBit(e, cls, "w")
+				if err != "" {
+					bad = "the condition: " + err
+					break
+				}
+				if want := cls == 0 && e; cb != want {
+					bad = fmt.Sprintf("the condition has bit %v %s for an operand bit %v: it is not the sign bit alone", cb, name[cls], e)
+					break
+				}
+				// the two results; at the sign position the operand's bit is the sign
+				for _, sign := range []bool{false, true} {
+					if cls == 0 && e != sign {
+						continue
+					}
+					br := t.a[3]
+					if sign {
+						br = t.a[2]
+					}
+					got, err := br.sxBit(e, cls, "w")
+					want := e
+					if cls >= 0 {
+						want = sign
+					}
+					switch {
+					case err != "":
+						bad = "the result: " + err
+					case got != want:
+						bad = fmt.Sprintf("with the sign bit %v the result has bit %v %s (operand bit %v), sign extension gives %v", sign, got, name[cls], e, want)
+					}
+				}
+			}
+		}
+	}
+	c.Oblige("C11.signext", "pkg/expr/exprtools.SignExtend", c.Prog.FuncPos(f), bad == "", bad)
 }
